@@ -31,7 +31,11 @@ PROPS = {
                     "DialAsync connect) on real sockets; NPoller only selects the poller; read-call counters on the simulated kernel; "
                     "the executor is not a model parameter: task steps interleave arbitrarily, assuming any IOExecute runs each submitted "
                     "task exactly once; def/park/real are harness wrappers; c02_udp_demux assumes well-formed addresses of one family; "
-                    "ATTRIBUTION_SENTENCE",
+                    "attribution of stream data among several live conns (descriptor table lookup, events of several conns in one batch, "
+                    "descriptor number reuse with stale readable events) is proved on the table model FdTable (c02_attribution) and judged "
+                    "by the per-conn oracle c02-delivery on hread's side conns in the synchronous-read configurations only; with read tasks "
+                    "(AsyncReadInPoller) it is neither proved nor judged by an oracle (hlife checks only data-after-close), and a stale "
+                    "HANG-UP event on a reused descriptor number (it would close the new conn) is not exercised",
             "technique": "Lean 4 proof (inductive invariant over a small-step transition system, decreasing measure) + differential correspondence"},
         "lean": ["NbioVerif.Properties.C02", srcgen.BRIDGE_CONN], "drivers": ["gatedrv"], "harness": ["hread"],
         "facts": [srcgen.src_facts],
@@ -59,9 +63,9 @@ PROPS = {
                     "the wait group never negative and released at the end, closeErr = argument of the flipping step and stable "
                     "afterwards, no step touches the descriptor after the teardown, a torn-down conn is not in the fd table, dial "
                     "outcome reported at most once / exactly once when the dial is over / success only if the kernel's verdict is "
-                    "success, the dial timeout never closes a conn reported as connected. The one exception is stated and proved "
-                    "to be real: the user's own Close racing its AddConn between the closed test and the open notification "
-                    "(c03_raced_*). The driver changes a conn's state through Life.step only (a disabled step is a MODEL-ERROR), so "
+                    "success, the dial timeout never closes a conn reported as connected. Exactly-one holds in every interleaving; "
+                    "the ORDER and wait-group clauses have one stated exception, reachable in the code: the user's own Close racing "
+                    "its AddConn after c.p = p/Unlock, before the open notification (c03_raced_close_before_open). The driver changes a conn's state through Life.step only (a disabled step is a MODEL-ERROR), so "
                     "the compared states are the states the theorems quantify over. Tie: differential execution of the REAL engine "
                     "(AddConn incl. of a closed conn, acceptor, DialAsync with scripted connect/SO_ERROR and a connect completing "
                     "inside DialAsync, poller loop with synchronous reads or read tasks incl. a hang-up arriving while a task is busy, N closers released from a barrier, deadlines, injected write/flush/sendfile/read "
@@ -69,8 +73,10 @@ PROPS = {
                     "implementation alone",
             "note": "proof, partial: goroutine-level atomicity of each model step (critical-section predicates) and the enabling "
                     "conditions 'nobody but the caller of AddConn reaches a conn before it was announced / registered' are "
-                    "assumptions; the AddConn/Close race of the holder of the *Conn is excluded by hypothesis (model counterexamples, "
-                    "not reproduced on the code: no hook point between the two statements); which of k concurrent closers wins and "
+                    "assumptions; for 'never before its open notification' and the wait group the AddConn/Close race of the holder of the "
+                    "*Conn (after c.p = p/Unlock, before the open notification) is excluded by hypothesis raced = false although it is a "
+                    "reachable violation of the property's text (model counterexample c03_raced_close_before_open; not reproduced on the "
+                    "code: no hook point between the Unlock and the wgConn.Add inside the open wrapper); which of k concurrent closers wins and "
                     "which of two timers armed for the same instant fires are nondeterministic in the model and resolved from the "
                     "observed run (winner=/cause= annotations: the model is told WHO, it computes the error; membership is judged by "
                     "the oracle c03-first-cause) — every other op is serialized by the harness; listener-closes-sessions and "
@@ -91,8 +97,9 @@ PROPS = {
                 "closer counts/dial outcome/timer cause); non-trivial iff a conn was closed, dialed or hit by an event",
         "assumptions": ["the test-and-set of the closed flag is atomic (mutex); each model step is atomic in the Go code",
                         "an accepted conn, a UDP session and a dialing conn are not reachable by other goroutines before their open "
-                        "notification / dial registration; the caller of AddConn may close its conn at any time, except between "
-                        "addConn's closed test and its open notification (Life.c03_raced_open_without_close / _close_before_open)",
+                        "notification / dial registration; the caller of AddConn may close its conn at any time; for the order and "
+                        "wait-group clauses: not after addConn's c.p = p/Unlock and before its open notification "
+                        "(Life.c03_raced_close_before_open)",
                         "the kernel decides once how a non-blocking connect ends and reports it through writability and SO_ERROR",
                         "winner of concurrent closers / of two timers armed for the same instant: observed from the run (echoed input)"],
     },
